@@ -36,5 +36,38 @@ def frame_violations(world, target):
     return out
 
 
+class debug_logging:
+    """Within the block the library logs at its most verbose level into a handler that formats every record (so lazily
+    evaluated log arguments are evaluated too): behaviour must not depend on whether anybody listens to the log."""
+
+    class _Sink(__import__("logging").Handler):
+        def emit(self, record):
+            try:
+                record.getMessage()
+            except Exception:  # noqa - formatting problems of a log line are the library's, but not the property's, business
+                pass
+
+    def __enter__(self):
+        import logging
+
+        self.lg = logging.getLogger("pycomm3")
+        self.prev = (logging.root.manager.disable, self.lg.level, self.lg.propagate)
+        self.h = self._Sink(level=1)
+        logging.disable(logging.NOTSET)
+        self.lg.setLevel(1)
+        self.lg.propagate = False
+        self.lg.addHandler(self.h)
+        return self
+
+    def __exit__(self, *a):
+        import logging
+
+        self.lg.removeHandler(self.h)
+        logging.disable(self.prev[0])
+        self.lg.setLevel(self.prev[1])
+        self.lg.propagate = self.prev[2]
+        return False
+
+
 def make_target(device=None, policy=None, identity=None, **kw):
     return enip.Target(device if device is not None else enip.IdentityDevice(), policy or enip.Policy(), identity, **kw)
